@@ -48,7 +48,7 @@ Proof. reflexivity. Qed.
 
 Lemma with_corr_chunks : forall c l, c_properties (PWithCorr c l) = c_properties (PSlice (c :: l)).
 Proof.
-  intros c l. unfold c_properties. cbn [props_size map sumN]. f_equal. f_equal. lia.
+  intros c l. unfold c_properties. cbn [props_size map sumN flat_map]. f_equal. f_equal. lia.
 Qed.
 
 (* the reply, encoded and read back, is a PUBLISH to the response topic whose properties are the correlation data
